@@ -26,9 +26,9 @@ import (
 // non-aborted messages.
 
 type c12Msg struct {
-	Size   int   `json:"size"`  // payload bytes
-	Chunks int   `json:"chunks"`
-	Abort  int   `json:"abort"` // >0: aborted after that many intermediate chunks
+	Size   int `json:"size"` // payload bytes
+	Chunks int `json:"chunks"`
+	Abort  int `json:"abort"` // >0: aborted after that many intermediate chunks
 	cuts   []int
 	body   []byte
 	marker float64
